@@ -545,6 +545,28 @@ def template_programs(rng):
             P = std_program(seq(mb), main_locals=locs + ['w'])
             P['arrays']['g8'] = 8
             out.append(('storeload:main:%d:%d' % (nloc, k), P))
+    # deep expression nests (many simultaneous temporaries), left- and right-leaning, with calls at the leaves
+    for depth in (4, 6, 9, 12):
+        for lean in ('L', 'R', 'M'):
+            leaves = [var('y'), idx('a', num(1)), num(3), call('id', [num(2)]), var('k'), idx('a', var('k')), num(70000), call('add', [var('y'), num(1)])]
+            e = leaves[0]
+            for i in range(1, depth + 1):
+                lf = leaves[i % len(leaves)]; op = '+' if i % 3 else '-'
+                e = bi(op, e, lf) if lean == 'L' else (bi(op, lf, e) if lean == 'R' else (bi(op, e, bi('-', lf, num(i))) if i % 2 else bi(op, bi('+', lf, num(i)), e)))
+            out.append(('deep:%s:%d' % (lean, depth), std_program(seq(init_stmts(rng) + [putc(e), callst(call('put3', [e, num(1), e])), exit_(call('add', [e, e]))]))))
+    # many globals and many locals: addresses and frame offsets beyond one nibble
+    for n in (17, 40):
+        gn = ['g%d' % i for i in range(n)]; ln = ['v%d' % i for i in range(n)]
+        mb = [ass(var(g), num(i * 3 + 1)) for i, g in enumerate(gn)]
+        fb = [ass(var(v), bi('+', var('p'), num(i))) for i, v in enumerate(ln)]
+        tot = var(ln[0])
+        for v in ln[1:]:
+            tot = bi('+', tot, var(v))
+        fb.append(ret(bi('+', tot, bi('+', var(gn[-1]), var(gn[16])))))
+        f = proc(True, [('val', 'p')], ln, seq(fb))
+        P = program(gn, {'z': 3}, {'f': f, 'main': proc(False, [], ['m0', 'm1'], seq(mb + [ass(var('m0'), call('f', [num(2)])), ass(idx('z', num(2)), var('m0')), putc(var(gn[n - 1])), exit_(idx('z', num(2)))]))},
+                    {}, {}, ['f', 'main'])
+        out.append(('manyvars:%d' % n, P))
     # main with locals, stop at depth, main returning normally, exit codes
     out.append(('main:locals', std_program(seq([ass(var('m'), num(3)), ass(var('n'), bi('+', var('m'), num(4))), exit_(var('n'))]), main_locals=['m', 'n'])))
     out.append(('main:return', std_program(seq([putc(num(72)), putc(num(105))]))))
